@@ -5,7 +5,7 @@
 
    Vocabulary (Proof/SeqBox.v):
      nz u        := ust u <> 0                       "non-zero position"
-     wf u        := ust u <> 0 /\ 0 <= ucnt u        what validatePts + non-zero admit
+     wf u        := ust u <> 0 /\ 0 <= ucnt u        what validatePts + non-zero allow
      op_P P o    := P u when o = Handle u, True for SetState / ClearGaps
      chain s us e: us = u1..uk, start u1 = s, start u(i+1) = end ui, end uk = e
      step_ok b o b' evs :=
